@@ -1090,13 +1090,20 @@ def c08_pool_script(rng, sizes, sk, srule, rr, ncases):
     # make sure some events are topped below the top level and some at it
     pool[0] = rand_event(rng, sizes, top=len(sizes) - 1)
     pool[1] = rand_event(rng, sizes, top=len(sizes) - 2)
-    ops = ['REACH_SAT_F', 'REACH_SAT_F', 'REACH_SAT_B', 'REACH_NOFS_F'] if sk == 'mtb_s' else ['REACH_SAT_F', 'REACH_SAT_F', 'REACH_SAT_B']
+    pool[2] = rand_event(rng, sizes, top=len(sizes) - 2)
+    ops = ['REACH_SAT_F'] * 5 + ['REACH_SAT_B'] + (['REACH_NOFS_F'] if sk == 'mtb_s' else [])
     prev = None
     for c in range(ncases):
-        if c % 3 == 0:
-            T = rand_table(rng, sk, ns) if sk == 'mtb_s' else dist_table(rng, sk, ns)
+        if c % 8 == 0:
+            if sk == 'mtb_s':
+                # few initial states: what is reachable then depends on every event
+                T = [0] * ns
+                for x in rng.sample(range(ns), rng.choice([1, 1, 2, 3])):
+                    T[x] = 1
+            else:
+                T = dist_table(rng, sk, ns)
             table_coll(S, a, fa, sk, T, sizes)
-        if prev is not None and rng.random() < 0.6:
+        if prev is not None and rng.random() < 0.85:
             # differ from the previous relation by exactly one event
             sub = set(prev)
             e = rng.randrange(len(pool))
@@ -1153,10 +1160,10 @@ def plan_c08(tier, seed, rng):
     # share sub-relations (and differ in the events topped at one level), on the same
     # initial set, with the earlier results still held - the situation in which an entry
     # of the cross-call caches is found again
-    for rr in ['I', 'I', 'F'] if tier != 'thorough' else ['I', 'I', 'I', 'I', 'F', 'Q']:
-        for sk in ['mtb_s', rng.choice(['evp_s', 'mti_s'])]:
+    for rr in ['I', 'I', 'I', 'F'] if tier != 'thorough' else ['I', 'I', 'I', 'I', 'I', 'I', 'F', 'Q']:
+        for sk in ['mtb_s', 'mtb_s', rng.choice(['evp_s', 'mti_s'])]:
             sizes = rng.choice([[3, 3, 3], [2, 3, 2], [2, 2, 2], [3, 2, 3]])
-            scripts.append(('p%03d' % n, c08_pool_script(rng, sizes, sk, 'F' if sk == 'mti_s' else rng.choice('FQ'), rr, 18 if tier == 'thorough' else 9)))
+            scripts.append(('p%03d' % n, c08_pool_script(rng, sizes, sk, 'F' if sk == 'mti_s' else rng.choice('FQ'), rr, 40 if tier == 'thorough' else 16)))
             n += 1
     return dict(
         scripts=scripts, validators=[API], tags={'C08', 'HELD'},
@@ -1620,9 +1627,71 @@ def c06_width_script(rng, dele, wide16):
     return S.text()
 
 
+def c06_leak_script(rng, rel, ncases):
+    """leak sweep: one operation on structured operands (functions that ignore levels,
+    relations that are the identity / unconstrained on some levels), then every edge is
+    released, the caches are cleared and the forests are snapshot: no node may remain
+    (ReclaimAll).  Structured operands make the operations take their level-skipping
+    paths (identity chains, redundant chains), whose temporary links must all be undone."""
+    sizes = rng.choice([[3, 2], [2, 3], [2, 2, 2], [3, 2, 2]]) if rel else rng.choice([[3, 2, 2], [2, 3, 2], [2, 2, 2, 2]])
+    S = Script()
+    d = S.dom(sizes)
+    kb = 'mtb_r' if rel else 'mtb_s'
+    ki = 'mti_r' if rel else 'mti_s'
+    rules = gen.rules_of(kb)
+    fb1 = S.forest(d, kb, rng.choice(rules), dele=rng.choice(DEL), sto=rng.choice(STO))
+    fb2 = S.forest(d, kb, rng.choice(rules), dele=rng.choice(DEL))
+    fi1 = S.forest(d, ki, rng.choice(rules), dele=rng.choice(DEL))
+    F = [fb1, fb2, fi1]
+    ns = points_of(sizes, False)
+
+    def operand(kind):
+        if rel:
+            pal = None if kind == kb else [1, 2, 3, -7]
+            return struct_relation(rng, sizes, pal) if rng.random() < 0.8 else rand_relation(rng, sizes, kind, pal)
+        mk = (lambda n_: rand_table(rng, kind, n_)) if kind == kb else (lambda n_: rand_table(rng, kind, n_, [1, 2, 3, -7], p_default=0.4))
+        return lift_table(rng, sizes, mk) if rng.random() < 0.8 else mk(ns)
+
+    for c in range(ncases):
+        x = rng.random()
+        if x < 0.35:
+            fa, fr = rng.choice([fb1, fb2]), rng.choice([fb1, fb2])
+            a, r = S.new(fa), S.new(fr)
+            table_coll(S, a, fa, kb, operand(kb), sizes)
+            S.add('un COMPLEMENT %d %d' % (r, a))
+            used = [a, r]
+        elif x < 0.7:
+            fa, fb, fr = rng.choice([fb1, fb2]), rng.choice([fb1, fb2]), rng.choice([fb1, fb2])
+            a, b, r = S.new(fa), S.new(fb), S.new(fr)
+            table_coll(S, a, fa, kb, operand(kb), sizes)
+            table_coll(S, b, fb, kb, operand(kb), sizes)
+            S.add('bin %s %d %d %d' % (rng.choice(SETALG), r, a, b))
+            used = [a, b, r]
+        elif x < 0.85:
+            a, b, r = S.new(fi1), S.new(fi1), S.new(fi1)
+            table_coll(S, a, fi1, ki, operand(ki), sizes)
+            table_coll(S, b, fi1, ki, operand(ki), sizes)
+            S.add('bin %s %d %d %d' % (rng.choice(['PLUS', 'MULTIPLY', 'MAXIMUM', 'MINIMUM']), r, a, b))
+            used = [a, b, r]
+        else:
+            a, r = S.new(fb1), S.new(fi1)
+            table_coll(S, a, fb1, kb, operand(kb), sizes)
+            S.add('un COPY %d %d' % (r, a))
+            used = [a, r]
+        S.add('obs')
+        for e in used:
+            S.add('del %d' % e)
+        S.add('clearall')
+        for g in F:
+            S.add('snap %d' % g)
+    return S.text()
+
+
 @plan('C06')
 def plan_c06(tier, seed, rng):
     scripts = []
+    for i in range(8 if tier == 'thorough' else 3):
+        scripts.append(('k%03d' % i, c06_leak_script(rng, i % 3 != 2, 30 if tier == 'thorough' else 14)))
     reps = 36 if tier == 'thorough' else 9
     for i in range(reps):
         rel = i % 3 == 2
@@ -1642,7 +1711,8 @@ def plan_c06(tier, seed, rng):
     return dict(
         scripts=scripts, validators=[API, STORE], tags={'C06', 'HELD'}, lifecycle=True,
         mc=[('MddStore.tla', 'StoreMC_F_O.cfg', {}), ('MddStore.tla', 'StoreMC_Q_P.cfg', {})] if tier == 'thorough' else [('MddStore.tla', 'StoreMC_small.cfg', {})],
-        rule='model: MddStore (reduce / unique-table / link / unlink / lastUnlink / deleteNode / recycle / cache counts / compute table) model-checked '
+        rule='leak sweeps: single operations (COMPLEMENT, set algebra, arithmetic, COPY) on structured operands that make them take their level-skipping paths, then all edges released, caches cleared, forests snapshot - no node may remain; '
+             'model: MddStore (reduce / unique-table / link / unlink / lastUnlink / deleteNode / recycle / cache counts / compute table) model-checked '
              'exhaustively on a 2-level forest with invariants RefExact, NoDangling, FreeMeansUnreferenced, ReclaimAll, Refines; implementation: seeded random '
              'histories over 1..3 forests under optimistic, pessimistic and never-delete policies with lifecycle events (NewNode / DelNode / Recycle) and a '
              'snapshot every 9 calls; TLC checks at every snapshot incoming count = parent slots + registered root edges + build-list references, no pointer to '
@@ -1810,6 +1880,14 @@ def plan_c01(tier, seed, rng):
                 sizes = [rng.choice([2, 3]), rng.choice([2, 3, 4])] if kind == 'evp_s' else [rng.choice([2, 3])]
                 scripts.append(('w%03d' % n, c01_wide_script(rng, sizes, kind, rule)))
                 n += 1
+    # EV+: the all-infinity function reached by arithmetic (operands with complementary
+    # finite supports and non-zero minima, infinite constants) must be the one edge <0, inf>
+    for kind in ['evp_s', 'evp_r']:
+        for rule in gen.rules_of(kind):
+            if tier != 'thorough' and rng.random() < 0.4:
+                continue
+            scripts.append(('inf%03d' % n, c01_evinf_script(rng, kind, rule)))
+            n += 1
     # createEdgeForVar next to the same function from minterms (every variable, primed too)
     scripts += [('var_' + nm, text) for nm, text in var_struct_scripts(rng, tier)]
     # spec -> code: behaviours generated by TLC from the store model, with the
@@ -1944,6 +2022,34 @@ def c01_unode_script(rng, kind):
         S.add('unode %d %d %d F %d %s' % (res[6], f, level, n, parts))
         S.add('obs')
     S.add('snap %d' % f)
+    return S.text()
+
+
+def c01_evinf_script(rng, kind, rule):
+    rel = KINDS[kind][0] == 'R'
+    sizes = rng.choice([[2, 2], [3]]) if rel else rng.choice([[3, 2], [2, 2, 2], [4, 3]])
+    S = Script()
+    d = S.dom(sizes)
+    f = S.forest(d, kind, rule, sto=rng.choice(STO))
+    npts = points_of(sizes, rel)
+    inf_c, fresh = S.new(f), S.new(f)
+    S.add('const %d %d inf' % (inf_c, f))
+    a, b, c7 = S.new(f), S.new(f), S.new(f)
+    S.add('const %d %d 7' % (c7, f))
+    res = [S.new(f) for _ in range(6)]
+    for trial in range(4):
+        part = [rng.random() < 0.5 for _ in range(npts)]
+        A = [rng.choice([3, 5, 9, 100]) if part[r] else INF for r in range(npts)]
+        B = [INF if part[r] else rng.choice([2, 4, 11]) for r in range(npts)]
+        S.coll(a, f, 'MIN', INF, [(v, rank_to_assignment(r, sizes, rel)) for r, v in enumerate(A) if v != INF])
+        S.coll(b, f, 'MIN', INF, [(v, rank_to_assignment(r, sizes, rel)) for r, v in enumerate(B) if v != INF])
+        S.add('bin PLUS %d %d %d' % (res[0], a, b))
+        S.add('bin PLUS %d %d %d' % (res[1], b, a))
+        S.add('bin PLUS %d %d %d' % (res[2], a, inf_c))
+        S.add('bin PLUS %d %d %d' % (res[3], inf_c, b))
+        S.add('bin PLUS %d %d %d' % (res[4], res[0], c7))
+        S.add('bin MAXIMUM %d %d %d' % (res[5], a, b))
+        S.add('obs')
     return S.text()
 
 
@@ -2614,9 +2720,61 @@ def api_graph_scripts(work, nd, nf, ns):
     return scripts, dict(states=len(nodes), transitions=ntrans, executions=len(scripts), bounds=(nd, nf, ns))
 
 
+def c17_survivor_script(rng):
+    """survivor audit: operations spanning two forests fill the compute tables, one
+    of the two forests is destroyed, the survivor keeps working and is finally
+    emptied: every edge released, caches cleared - it must hold no node, and every
+    node's cache count must equal the number of table entries that mention it"""
+    sizes = rng.choice([[3, 3], [2, 3, 2], [4, 3]])
+    S = Script()
+    d = S.dom(sizes)
+    k1 = 'mtb_s'
+    k2 = rng.choice(['mti_s', 'mtb_s', 'evp_s'])
+    f1 = S.forest(d, k1, rng.choice('FQ'), dele=rng.choice(['O', 'P']))
+    f2 = S.forest(d, k2, rng.choice('FQ'), dele=rng.choice(['O', 'P']))
+    f3 = S.forest(d, k1, rng.choice('FQ'), dele=rng.choice(['O', 'P']))
+    ns = points_of(sizes, False)
+    e1 = [S.new(f1) for _ in range(5)]
+    e2 = [S.new(f2) for _ in range(3)]
+    e3 = [S.new(f3) for _ in range(2)]
+    for e in e1[:3]:
+        table_coll(S, e, f1, k1, rand_table(rng, k1, ns), sizes)
+    S.add('bin UNION %d %d %d' % (e1[3], e1[0], e1[1]))
+    S.add('bin INTERSECTION %d %d %d' % (e1[4], e1[3], e1[2]))
+    # entries that span f1 and the forest about to be destroyed, in both directions
+    for i in range(3):
+        S.add('un COPY %d %d' % (e2[i], e1[i + 1]))
+    S.add('un COPY %d %d' % (e3[0], e1[3]))
+    S.add('bin UNION %d %d %d' % (e3[1], e1[0], e3[0]))        # operands from two forests
+    if k2 == 'mtb_s':
+        S.add('bin UNION %d %d %d' % (e1[0], e2[0], e1[1]))
+    else:
+        S.add('un COPY %d %d' % (e1[0], e2[1]))
+    S.add('obs')
+    victim, victim_edges = rng.choice([(f2, e2), (f2, e2), (f3, e3)])
+    S.add('dfor %d' % victim)
+    S.add('obs')
+    S.add('snap %d' % f1)
+    # the survivor keeps working
+    S.add('bin DIFFERENCE %d %d %d' % (e1[2], e1[3], e1[4]))
+    S.add('bin UNION %d %d %d' % (e1[1], e1[2], e1[0]))
+    S.add('obs')
+    for e in e1:
+        S.add('del %d' % e)
+    S.add('clearall')
+    S.add('snap %d' % f1)
+    other = f3 if victim == f2 else f2
+    for e in (e3 if victim == f2 else e2):
+        S.add('del %d' % e)
+    S.add('clearall')
+    S.add('snap %d' % other)
+    return S.text()
+
+
 @plan('C17')
 def plan_c17(tier, seed, rng):
     scripts = [('y%03d' % i, c17_script(rng, 160 if tier == 'thorough' else 90)) for i in range(40 if tier == 'thorough' else 10)]
+    scripts += [('a%03d' % i, c17_survivor_script(rng)) for i in range(16 if tier == 'thorough' else 6)]
     # every transition of the bounded lifecycle model, replayed in the library
     gwork = os.path.join(VERIF, 'work', 'C17-gen-%s' % tier)
     gstats = []
@@ -2626,7 +2784,7 @@ def plan_c17(tier, seed, rng):
         gstats.append(st)
     shutil.rmtree(gwork, ignore_errors=True)
     return dict(
-        scripts=scripts, validators=[API, STORE], tags={'C17', 'C16', 'HELD', 'C06'}, asan=True,
+        scripts=scripts, validators=[API, STORE], tags={'C17', 'C16', 'HELD', 'C06', 'C07', 'C02'}, asan=True,
         mc=[('MddApiMC.tla', 'ApiLifeMC3.cfg' if tier == 'thorough' else 'ApiLifeMC.cfg', {})],
         rule='spec -> code: every transition of the bounded lifecycle model MddApiGen %s is replayed through the library (one execution per transition: a shortest path to its source state, the step, an observation of all edges) and validated; ' % '; '.join('bounds ND,NF,NS=%s: %d states, %d transitions, %d executions' % (st['bounds'], st['states'], st['transitions'], st['executions']) for st in gstats) +
              'model: every order of initialise / create domain / create forest / new, copy, assign, attach, delete edge / build / union / destroy forest / '
@@ -2635,7 +2793,7 @@ def plan_c17(tier, seed, rng):
              'forests (boolean, integer and EV+ sets) with compute tables populated by operations inside and across forests of a domain, forests and domains '
              'destroyed while edges are attached, detached edges used in operations and queries, repeated initialise / clean-up cycles incl. double calls; after '
              'each step the specification\'s state (forest identifiers, attachment and function of every edge) is compared with the library\'s; surviving forests '
-             'are snapshot; thorough repeats the executions under AddressSanitizer; non-trivial = non-constant function or an error outcome',
+             'are snapshot; survivor audits: after operations spanning two forests one of them is destroyed, the survivor keeps working, is emptied (edges released, caches cleared) and must hold no node, with cache counts equal to the table entries that mention each node; thorough repeats the executions under AddressSanitizer; non-trivial = non-constant function or an error outcome',
         exhaustive=False,
     )
 
